@@ -22,7 +22,7 @@ FAMILIES = {
     "var1-vertical": dict(n_axes=1, layout="intermediate", n_glyphs=8, vertical=True),
     "var2-nested-xform": dict(n_axes=2, layout="onaxis", n_glyphs=12, composites=0.5, nested=True, transforms="scale"),
     "var1-nonexport": dict(n_axes=1, layout="intermediate", n_glyphs=12, composites=0.5, nested=True, non_export=3, sparse_glyphs=0.4),
-    "var1-mixedglyphs": dict(n_axes=1, layout="onaxis", n_glyphs=10, composites=0.5, mixed_glyphs=0.6),
+    "var1-mixedglyphs": dict(n_axes=1, layout="onaxis", n_glyphs=14, composites=0.7, mixed_glyphs=0.8),  # several mixed glyphs in every draw
     "var1-cubic": dict(n_axes=1, layout="onaxis", n_glyphs=8, curves="cubic"),
     "var2-cubic-sparse": dict(n_axes=2, layout="mixed", n_glyphs=8, curves="cubic", sparse_glyphs=0.4, sparse_layers=1),
     "c06-partial-notdef-mid": dict(n_axes=0, n_glyphs=14, glyph_order="partial", notdef="middle", unicodes="multi", composites=0.4, non_export=2, nested=True),
